@@ -104,6 +104,38 @@ the committed quick tier of their own property. The recurring blind spots:
   columns; C14 places the same clause under different outer binders with the same
   innermost variable.
 
+
+**Seeds and later repairs.** A seeded patch is written against the `/repo` commit of its wave (`meta.json` `repo_head`). When a
+later `fix:` commit touches the same lines the patch no longer applies; `tools/seed_recheck.py` then applies it 3-way, and if
+that fails evaluates it on its own commit *differentially* (the check runs there with and without the patch and only the
+violation classes the patch adds count). Six seeds were rebased by hand onto the repaired lexer (`patch.orig.diff` keeps the
+original). The same tool re-runs the property-preserving changes under `benign/` (third argument `benign`).
+
+**Bug-hunt wave (`hunts/`).** After four waves of seeded bugs and one of benign refactorings, twenty sub-agents were given one
+property each, a worktree of the *repaired* tree and the task to find inputs that violate the property there (names, values,
+feature combinations, contexts and schema shapes a small-term sweep does not contain). Their findings (`hunts/Cnn/findings.md`,
+`demo.py`) were reproduced and triaged: 20 became `fix:` commits (section 4.1, from `74e0d3a` on), 3 became known findings
+(C08 `django:in-list-equal-elements-collapsed`, C12 `orm:lambda-body-outer-field-rebound`, C15
+`sa:base-join-of-same-relationship-taken-for-the-filters-join`), the rest are the observations of section 4.3. For every repaired
+defect the owning check was first extended *in kind* until it reported the defect on the unrepaired tree (`VERIF_REPO=<worktree
+at c05acbb>`), then shown silent on the repaired one:
+
+| Defect (commit) | Check layer that now reports it on the old tree |
+|---|---|
+| suspended token generator finalised during the next parse (`74e0d3a`) | C20 `finalisers`: the pending generator is closed before every line event of the next parse (an environment choice the explorer owns) |
+| qualified path segments dropped (`7dfbd66`) | C13 `keyword-named-identifiers` (qualified texts), C06 contexts `path-segment` / `lambda-owner`, C14 `qualified-path-segments` |
+| LIKE operand `null` / list (`658c9d9`), `null` in ordering comparisons, lists as operands, named parameters on built-ins, list arguments (`2b969d7` `add1e65` `c731351` `6b40259` `00491fd`) | C12 `null-and-list-operands` |
+| Django bare boolean field, comparison of comparisons, null test of a negation (`c67360a` `457b563` `9aa4e38`) | C02 `boolean-operands` (also run by C01, C03), C12 `django-q-keyword-names` |
+| Django visitor unusable after a refusal (`a65d5a6`) | C12 `shared-visitor-after-refusal` |
+| Django `to_field` / manager name, SQLAlchemy reverse one-to-one `eq null` (`94d81e0` `27a02ab`) | C04 `alternate-schema` (256 instances of a second schema, hand-written oracle per filter) |
+| Unicode digits (`efcbaf1`) | C09 `non-ascii-digits` |
+| non-ASCII case folding of keywords (`7ed76be`) | C06 identifiers (`fal\\u017fe`, `\\u017fub`, `\\u0131n`, Kelvin sign), C19 raw names |
+| `any(` / `all(` outside a path (`67892d4`) | C11 near-miss names |
+| `not` + optional blank (`3510d58`) | C19 `keyword-named-fields-optional-blanks` |
+| rewriter on its own output, rewriter shared by two visits (`1b2f22f` `1dc6d79`) | C14 `composition`, C14 `shared-instance-interleavings` (greenlet scheduler, all schedules within the preemption bound) |
+
+The wave also exposed an oracle that had *copied* a defect: the reference parser (`vt/refparse.py`) dropped the qualifier of inner
+path segments "because the library does", so C05/C11 agreed with the library; it now follows the text (section 7).
 '''
 s = s[:a] + text + s[b:]
 open(p, 'w').write(s)
